@@ -823,6 +823,21 @@ pub fn descriptor_models_ctx(u: &Universe, n_seg: usize, n_shwsh: usize, n_leg: 
             }
         }
     }
+    // dissatisfactions the static analysis does not count (and_v is never typed `d`, yet the satisfier
+    // knows how to dissatisfy it through its right child): fragments where such a dissatisfaction ties
+    // in size with the canonical one, in positions where it would be used
+    {
+        let b = |t: T| Box::new(t);
+        let pkl = |k: &str| T::Check(b(T::PkK(k.into())));
+        let x = |a: &str, m1: &str, m2: &str| T::OrI(b(pkl(a)), b(T::AndV(b(T::Verify(b(T::True))), b(T::Multi(1, vec![m1.into(), m2.into()])))));
+        out.push(D::Wsh(T::OrB(b(x("K1", "K2", "K3")), b(T::Alt(b(x("K4", "K5", "K6")))))));
+        out.push(D::Wsh(T::OrB(b(x("K1", "K2", "K3")), b(T::Swap(b(pkl("K4")))))));
+        out.push(D::Wsh(T::OrD(b(x("K1", "K2", "K3")), b(pkl("K4")))));
+        out.push(D::Wsh(T::AndOr(b(x("K1", "K2", "K3")), b(pkl("K4")), b(pkl("K5")))));
+        out.push(D::Wsh(T::Thresh(1, vec![x("K1", "K2", "K3"), T::Alt(b(x("K4", "K5", "K6")))])));
+        out.push(D::Wsh(T::Thresh(2, vec![x("K1", "K2", "K3"), T::Alt(b(x("K4", "K5", "K6"))), T::Swap(b(pkl("K7")))])));
+        out.push(D::Sh(T::OrB(b(x("K1", "K2", "K3")), b(T::Swap(b(pkl("K4")))))));
+    }
     // a spendable script that the lift refuses (height and time locks combined on one path, next
     // to a plain key path): alone, and as a leaf at every position of 2- and 3-leaf trees — a
     // refusal of one leaf must make the whole descriptor unliftable, never drop the leaf
